@@ -33,10 +33,15 @@ def plan(tier, seed):
     return [{"part": i, "parts": n, "tier": tier, "_name": f"part-{i}"} for i in range(n)] + [{"kind": "xproc", "tier": tier, "_env": {"PYTHONHASHSEED": "12"}, "_name": "xproc"}]
 
 
+_USER_LOCK = __import__("threading").Lock()
+
+
 def ensure_user_classes(S):
-    for cls_name, base in (("UserIBAN", S.IBAN), ("UserBIC", S.BIC), ("UserBBAN", S.BBAN)):
-        if cls_name not in globals():
-            globals()[cls_name] = type(cls_name, (base,), {"__module__": __name__, "label": cls_name})
+    # under the generic threaded copy several threads come here at once: one definition per process
+    with _USER_LOCK:
+        for cls_name, base in (("UserIBAN", S.IBAN), ("UserBIC", S.BIC), ("UserBBAN", S.BBAN)):
+            if cls_name not in globals():
+                globals()[cls_name] = type(cls_name, (base,), {"__module__": __name__, "label": cls_name})
 
 
 def build_pool(S, rng, n):
